@@ -4,7 +4,9 @@ import (
 	"encoding/json"
 	"fmt"
 	"math"
+	"math/big"
 	"sort"
+	"strconv"
 	"strings"
 	"sync"
 
@@ -18,7 +20,7 @@ import (
 // C08 — bounds are the tight per-dimension box for every geometry and layout mix.
 
 type c08Case struct {
-	Mode  string      `json:"mode"` // geom | extend | overlaps | overlaps-narrow
+	Mode  string      `json:"mode"` // geom | extend | overlaps | overlaps-narrow | written-bbox
 	G     *ref.G      `json:"g,omitempty"`
 	Start geom.Layout `json:"start,omitempty"`
 	Ops   []int       `json:"ops,omitempty"`
@@ -325,6 +327,64 @@ func c08Exec(c *engine.Ctx, cs c08Case, onState func(multiset, key string)) {
 			c.DistinctStr(g.String())
 		}
 		c.Sample("geom/"+g.Kind.String(), 1, cs)
+	case "written-bbox":
+		// the GeoJSON bbox written together with a decimal-digits limit: whatever the rounding, it is
+		// monotone, so the box as written is the min/max of the coordinates as written
+		d, order := cs.Ops[0], cs.Init
+		t, err := cs.G.Build()
+		if err != nil {
+			panic("harness error: " + err.Error())
+		}
+		fail := func(what, desc string) {
+			c.Violate(fmt.Sprintf("written-bbox/%s/%s/%s", cs.G.Kind, cs.G.Layout, what), clipStr(desc+" geometry="+cs.G.String()+fmt.Sprintf(" digits=%d option order=%d", d, order), 1500), "c08", cs)
+		}
+		opts := []geojson.EncodeGeometryOption{geojson.EncodeGeometryWithMaxDecimalDigits(d), geojson.EncodeGeometryWithBBox()}
+		if order == 2 {
+			opts[0], opts[1] = opts[1], opts[0]
+		}
+		var data []byte
+		if pn, _ := engine.Guard(func() { data, err = geojson.Marshal(t, opts...) }); pn != nil || err != nil {
+			fail("error", fmt.Sprintf("geojson.Marshal with bbox and digits: panic=%v err=%v", pn, err))
+			return
+		}
+		dec := json.NewDecoder(strings.NewReader(string(data)))
+		dec.UseNumber()
+		var doc map[string]any
+		if err := dec.Decode(&doc); err != nil {
+			fail("json", err.Error()+" in "+string(data))
+			return
+		}
+		var nums, bb []string
+		jsonNumbers(doc["coordinates"], &nums)
+		jsonNumbers(doc["bbox"], &bb)
+		st := cs.G.Layout.Stride()
+		if len(nums) == 0 || len(nums)%st != 0 || len(bb) != 2*st {
+			fail("shape", fmt.Sprintf("%d coordinate numbers, %d bbox numbers for stride %d in %s", len(nums), len(bb), st, data))
+			return
+		}
+		for k := 0; k < st; k++ {
+			var lo, hi *big.Rat
+			for i := k; i < len(nums); i += st {
+				v, ok := new(big.Rat).SetString(nums[i])
+				if !ok {
+					fail("number", "not a number: "+nums[i])
+					return
+				}
+				if lo == nil || v.Cmp(lo) < 0 {
+					lo = v
+				}
+				if hi == nil || v.Cmp(hi) > 0 {
+					hi = v
+				}
+			}
+			blo, ok1 := new(big.Rat).SetString(bb[k])
+			bhi, ok2 := new(big.Rat).SetString(bb[st+k])
+			if !ok1 || !ok2 || blo.Cmp(lo) != 0 || bhi.Cmp(hi) != 0 {
+				fail("differs", fmt.Sprintf("dimension %d: bbox [%s, %s] but the coordinates as written span [%s, %s] in %s", k, bb[k], bb[st+k], lo.FloatString(d+2), hi.FloatString(d+2), data))
+				return
+			}
+		}
+		c.Count("written_bbox_compared", 1)
 	case "extend":
 		alpha := extendAlphabetFor(cs.Alpha)
 		fail := func(what, desc string) {
@@ -522,7 +582,64 @@ func jsonable(g *ref.G) bool {
 	return ok
 }
 
+// c08WrittenBBox: bbox and decimal digits together. For every d in 0..6 and every m in [-130,130]
+// the decimal tie (m+1/2)*10^-d as a float64 and its +-1, +-2 ulp neighbours are made the extreme
+// ordinate of every dimension of a two-position line and a two-point multipoint (XY, XYZ), the
+// options given in both orders.
+func c08WrittenBBox(c *engine.Ctx) {
+	type job struct{ d, m int }
+	var jobs []job
+	for d := 0; d <= 6; d++ {
+		for m := -130; m <= 130; m++ {
+			jobs = append(jobs, job{d, m})
+		}
+	}
+	c.Parallel(len(jobs), func(i int) {
+		d, m := jobs[i].d, jobs[i].m
+		tie, err := strconv.ParseFloat(fmt.Sprintf("%d.5e-%d", absI(m), d), 64)
+		if err != nil {
+			panic(err)
+		}
+		if m < 0 {
+			tie = -tie
+		}
+		vals := []float64{tie}
+		up, dn := tie, tie
+		for k := 0; k < 2; k++ {
+			up, dn = math.Nextafter(up, math.Inf(1)), math.Nextafter(dn, math.Inf(-1))
+			vals = append(vals, up, dn)
+		}
+		for _, v := range vals {
+			for _, l := range []geom.Layout{geom.XY, geom.XYZ} {
+				a, b := make([]ref.F, l.Stride()), make([]ref.F, l.Stride())
+				for k := range a {
+					a[k] = ref.F(v)
+					if k%2 == 1 {
+						a[k] = ref.F(-v)
+					}
+				}
+				for _, g := range []*ref.G{
+					{Kind: ref.LineString, Layout: l, C1: []ref.C{a, b}},
+					{Kind: ref.MultiPoint, Layout: l, C1: []ref.C{b, a}},
+				} {
+					for order := 1; order <= 2; order++ {
+						c08Exec(c, c08Case{Mode: "written-bbox", G: g, Ops: []int{d}, Init: order}, nil)
+					}
+				}
+			}
+		}
+	})
+}
+
+func absI(x int) int {
+	if x < 0 {
+		return -x
+	}
+	return x
+}
+
 func c08Run(c *engine.Ctx) {
+	c08WrittenBBox(c)
 	// (a) per geometry
 	var geoms []*ref.G
 	for _, l := range ref.LayoutsAll {
